@@ -28,10 +28,10 @@ func init() {
 			}
 			return Tuple{BVu(64, v), Iface{}}, true
 		}
-		b := in.strBytes(s, "ParseUint")
-		if base != 16 || len(b) == 0 || len(b) > 16 {
-			panic(engineErr("ParseUint on symbolic input: only base 16, 1..16 digits"))
+		if s.Kind != sBytes || base != 16 || len(s.B) == 0 || len(s.B) > 16 {
+			return nil, false // run the real code
 		}
+		b := s.B
 		acc := BVu(64, 0)
 		var oks []*Term
 		for _, d := range b {
